@@ -158,6 +158,12 @@ func RunTimedWorld(r sim.Src, mons []*sim.Mon, keepLog bool, sh TimedShape) *sim
 		o.Horizon = time.Duration(o.Heights+2) * (cfg.MaxTimePerBlock + 2*tpb)
 		o.MaxLat = tpb / 50
 		o.ResetLag = 0
+		// new transactions reach the pools one by one within a latency (2/3), and one may land in a pool while its
+		// owner is registering the subscription (1/2: 25% per subscription)
+		o.TxJitter = r.Intn("txjitter", 3) != 0
+		if r.Intn("landonsub", 2) == 0 {
+			o.LandOnSubscribePct = 25
+		}
 		// transaction arrivals: never / before the minimum / during the extended wait
 		all := make([]int, ids)
 		for i := range all {
